@@ -14,6 +14,12 @@ import (
 func main() {
 	ctx := hx.Init("C07")
 	if ctx.Replay != "" {
+		if raw, err := os.ReadFile(ctx.Replay); err == nil {
+			if cc := txsim.LoadChainReplay(raw); cc != nil {
+				txsim.RunChains(ctx, "C07", []*txsim.ChainCase{cc})
+				ctx.Finish("replay", nil)
+			}
+		}
 		c := txsim.LoadReplay(ctx.Replay)
 		if c == nil {
 			hx.Fatal("bad replay file %s", ctx.Replay)
@@ -25,7 +31,7 @@ func main() {
 		txsim.RunCases(ctx, "C07", txsim.LoadCorpus(dir))
 	}
 	r := hx.NewRand(ctx.Seed)
-	n := ctx.Scale(700, 60000)
+	n := ctx.Scale(2500, 60000)
 	batch := 100
 	for done := 0; done < n; done += batch {
 		var cases []*txsim.Case
@@ -34,5 +40,11 @@ func main() {
 		}
 		txsim.RunCases(ctx, "C07", cases)
 	}
-	ctx.Finish(txsim.Rule, txsim.Assumptions)
+	rc := r.Fork(77)
+	var chains []*txsim.ChainCase
+	for i := 0; i < ctx.Scale(150, 10000); i++ {
+		chains = append(chains, txsim.GenChain(rc))
+	}
+	txsim.RunChains(ctx, "C07", chains)
+	ctx.Finish(txsim.Rule+txsim.ChainRule, txsim.Assumptions)
 }
